@@ -130,8 +130,9 @@ class Task(NamedUIDObject):
             resource = resource.get_select_workers()
 
         if isinstance(resource, SelectWorkers):
-            # loop over each resource
-            for worker in resource.list_of_workers:
+            # loop over each resource. A worker listed twice in the selection is one
+            # candidate (one selection flag): it gets one busy interval
+            for worker in resource._selection_dict:
                 resource_maybe_busy_start = z3.Int(
                     f"{worker.name}_maybe_busy_{self.name}_start"
                 )
